@@ -241,6 +241,12 @@ def arith(op, a, b, ex=None, node=None):
             return bor(a, b)
         return z3.Xor(zb(a), zb(b))
     # ---- ints
+    if op == "*" and z3.is_expr(a) and z3.is_bool(a):
+        yb = to_int(b)
+        return z3.If(a, yb if z3.is_expr(yb) else z3.IntVal(yb), z3.IntVal(0))
+    if op == "*" and z3.is_expr(b) and z3.is_bool(b):
+        xa = to_int(a)
+        return z3.If(b, xa if z3.is_expr(xa) else z3.IntVal(xa), z3.IntVal(0))
     x, y = to_int(a), to_int(b)
     conc = isinstance(x, int) and isinstance(y, int)
     if op == "+":
